@@ -291,7 +291,7 @@ def run_sequence(backend):
         exp_h2 = (k1 + k2) * 1.0 - 0.5 * 1.0
         exp_j = 2 * (k1 + k2) * 1.0
         n += 2
-        if abs(r["ydot"][ih2] - exp_h2) > 1e-12 or abs(r["jac"].get((ih2, ih), 0.0) - exp_j) > 1e-12:
+        if not (abs(r["ydot"][ih2] - exp_h2) <= 1e-12 and abs(r["jac"].get((ih2, ih), 0.0) - exp_j) <= 1e-12):
             viols.append((f"C06:sequence:{backend}", f"{backend}: after the temperature walk {SEQ_T[:SEQ_T.index(T)+1] if T in SEQ_T else SEQ_T} the compiled Fex gives dH2/dt={r['ydot'][ih2]!r} (window predicate: {exp_h2!r}), Jac d/dH={r['jac'].get((ih2, ih), 0.0)!r} (expected {exp_j!r})", {"sequence": True, "backend": backend}))
             break
     return n, viols
